@@ -17,6 +17,7 @@ import (
 	"encoding/json"
 	"errors"
 	"fmt"
+	"google.golang.org/genproto/googleapis/api/httpbody"
 	"io"
 	"net/http"
 	"net/http/httptest"
@@ -62,12 +63,13 @@ type Step struct {
 
 type RpcCase struct {
 	ID          int      `json:"id"`
-	Proto       string   `json:"proto"` // http | twirp | grpc | grpcweb | grpcwebtext
-	Codec       string   `json:"codec"` // json | proto
-	Comp        string   `json:"comp"`  // "" | gzip
-	Shape       string   `json:"shape"` // unary | cstream | sstream | bidi
-	Opts        []string `json:"opts"`  // unaryInt | streamInt | stats
-	Sizes       []int    `json:"sizes"` // sizes of the client messages (payload filler bytes)
+	Proto       string   `json:"proto"`      // http | twirp | grpc | grpcweb | grpcwebtext
+	Codec       string   `json:"codec"`      // json | proto
+	Comp        string   `json:"comp"`       // "" | gzip
+	Shape       string   `json:"shape"`      // unary | cstream | sstream | bidi
+	BodyWriter  bool     `json:"bodywriter"` // server stream over HTTP whose one reply goes out through larking.AsHTTPBodyWriter (method Dl, HttpBody output)
+	Opts        []string `json:"opts"`       // unaryInt | streamInt | stats
+	Sizes       []int    `json:"sizes"`      // sizes of the client messages (payload filler bytes)
 	Script      []Step   `json:"script"`
 	ReuseMD     bool     `json:"reusemd"` // the handler reuses one metadata.MD for all its SetHeader/SendHeader/SetTrailer calls
 	ReqMD       MD       `json:"reqmd"`
@@ -427,6 +429,7 @@ func testService() ServiceSpec {
 		{Name: "CStream", ClientStream: true, Rule: both("cstream")},
 		{Name: "SStream", ServerStream: true, Rule: both("sstream")},
 		{Name: "Bidi", ClientStream: true, ServerStream: true, Rule: both("bidi")},
+		{Name: "Dl", ServerStream: true, Out: ".google.api.HttpBody", Rule: body("POST", "/t/dl")},
 	}}
 }
 
@@ -606,7 +609,28 @@ func (e *rpcEnv) stream(full string, md protoreflect.MethodDescriptor, ss grpc.S
 	}
 	return e.runScript(ctx,
 		func(m proto.Message) error { return ss.RecvMsg(m) },
-		func(m proto.Message) error { return ss.SendMsg(m) },
+		func(m proto.Message) error {
+			if e.c.BodyWriter {
+				// the reply leaves as raw bytes through the body writer, in pieces
+				w, err := larking.AsHTTPBodyWriter(ss, &httpbody.HttpBody{ContentType: "application/x-dl"})
+				if err != nil {
+					return err
+				}
+				b := marshalMsg("proto", m)
+				for len(b) > 0 {
+					n := 1 + len(b)/3
+					if n > len(b) {
+						n = len(b)
+					}
+					if _, err := w.Write(b[:n]); err != nil {
+						return err
+					}
+					b = b[n:]
+				}
+				return nil
+			}
+			return ss.SendMsg(m)
+		},
 		ss.SetHeader, ss.SendHeader, ss.SetTrailer)
 }
 
@@ -863,6 +887,9 @@ func (closeReader) Close() error { return nil }
 func (e *rpcEnv) buildRequest() *http.Request {
 	c := e.c
 	name, path := methodOf(c.Shape)
+	if c.BodyWriter {
+		name, path = "Dl", "/t/dl"
+	}
 	body := e.requestBody()
 	var rd io.Reader = bytes.NewReader(body)
 	if len(c.Sched) > 0 || c.EofWith {
@@ -1234,6 +1261,10 @@ func (e *rpcEnv) decodeHTTP(w *httptest.ResponseRecorder) ClientObs {
 		} else {
 			co.Clean = false
 		}
+	}
+	if e.c.BodyWriter && res.StatusCode == 200 {
+		co.Msgs = append(co.Msgs, e.matchReply(body, "proto"))
+		return co
 	}
 	codec := ""
 	switch {
